@@ -335,7 +335,7 @@ class World:
         p.blocked = None
         self.main_event.clear()
         p.resume.set()
-        if not self.main_event.wait(self.deadline_s):
+        if not self._wait_cpu(p):
             self._abandon(p)
             self.cur = prev
             if prev is not None:
@@ -349,6 +349,28 @@ class World:
             if not isinstance(e, Exception):
                 raise e  # jsym control flow raised inside the virtual process
             raise WorldError("virtual process %s died of %r" % (p.name, e)) from e
+
+    @staticmethod
+    def _thread_cpu(thread):
+        try:
+            f = open("/proc/self/task/%d/stat" % thread.native_id).read().rsplit(")", 1)[1].split()
+            return (int(f[11]) + int(f[12])) / os.sysconf("SC_CLK_TCK")
+        except Exception:
+            return None
+
+    def _wait_cpu(self, p):
+        """Wait for the baton; False if the process burnt deadline_s of CPU time without yielding
+        (CPU time, not wall time, so that a loaded machine cannot cause a false 'did not terminate')."""
+        start = self._thread_cpu(p.thread)
+        t0 = _REAL["time"]()
+        while True:
+            if self.main_event.wait(1.0):
+                return True
+            cpu = self._thread_cpu(p.thread)
+            if start is not None and cpu is not None and cpu - start > self.deadline_s:
+                return False
+            if _REAL["time"]() - t0 > 60 * self.deadline_s:
+                return False
 
     def _abandon(self, p):
         """Stop a spinning virtual process: raise ProcessKilled asynchronously in its thread."""
@@ -369,13 +391,13 @@ class World:
         def on_alarm(*_):
             raise Hang("command did not return within %s s" % self.deadline_s)
 
-        old = signal.signal(signal.SIGALRM, on_alarm)
-        signal.setitimer(signal.ITIMER_REAL, self.deadline_s)
+        old = signal.signal(signal.SIGPROF, on_alarm)
+        signal.setitimer(signal.ITIMER_PROF, self.deadline_s)  # CPU time of this process
         try:
             return fn()
         finally:
-            signal.setitimer(signal.ITIMER_REAL, 0)
-            signal.signal(signal.SIGALRM, old)
+            signal.setitimer(signal.ITIMER_PROF, 0)
+            signal.signal(signal.SIGPROF, old)
 
     def block(self, reason):
         """Called on a virtual-process thread: hand the baton back to the scheduler."""
